@@ -435,6 +435,10 @@ struct Recorder {
     face: Face,
     wraps: bool,
     cells: Vec<(char, Face)>,
+    /// `put_cell` calls with an index in [refuse.0, refuse.1) are refused (`false`, nothing stored): a sink
+    /// that has no room for some cells; the cell writer must go on decoding the rest of the write
+    refuse: (usize, usize),
+    calls: usize,
 }
 impl CellWrite for Recorder {
     fn face(&self) -> Face {
@@ -450,6 +454,11 @@ impl CellWrite for Recorder {
         std::mem::replace(&mut self.wraps, wraps)
     }
     fn put_cell(&mut self, cell: Cell) -> bool {
+        let k = self.calls;
+        self.calls += 1;
+        if self.refuse.0 <= k && k < self.refuse.1 {
+            return false;
+        }
         if let CellKind::Char(c) = cell.kind() {
             self.cells.push((*c, cell.face()));
         }
@@ -854,8 +863,23 @@ fn main() {
             }
         }
         let cuts = rnd_cuts(&mut rng, bytes.len());
+        // a third of the scripts meet a sink that refuses a range of cells (no room): the refused cells are
+        // missing, everything else - later cells, later SGR sequences of the same write - is unaffected
+        let refuse = if i % 3 == 1 && !want_full.is_empty() {
+            let a = rng.below(want_full.len() as u64) as usize;
+            (a, a + 1 + rng.below((want_full.len() - a) as u64) as usize)
+        } else {
+            (0, 0)
+        };
+        for w in [&mut want_full, &mut want_ign] {
+            let mut k = 0;
+            w.retain(|_| {
+                k += 1;
+                !(refuse.0 <= k - 1 && k - 1 < refuse.1)
+            });
+        }
         let got = guarded(|| {
-            let mut rec = Recorder { face: start_face, wraps: false, cells: Vec::new() };
+            let mut rec = Recorder { face: start_face, wraps: false, cells: Vec::new(), refuse, calls: 0 };
             {
                 let mut w = rec.by_ref().tty_writer();
                 let mut start = 0;
@@ -869,9 +893,22 @@ fn main() {
                     start = end;
                 }
             }
-            rec.cells
+            (rec.cells, rec.face)
         });
-        o.hist("writer");
+        let end_face = got.as_ref().ok().map(|g| g.1);
+        let got = got.map(|g| g.0);
+        if let Some(f) = end_face {
+            // the face the writer is left with is the face the next cell would get
+            if f != cur_ign || (f != cur_full && !inexpressible) {
+                o.fail(
+                    "C06: face of the cell writer after the script is not the face SGR semantics gives",
+                    json!({"case": case, "start_face": face_tok(&start_face), "script": script, "cuts": cuts, "refused_cells": [refuse.0, refuse.1], "has_inexpressible_param": false}),
+                    json!(face_tok(&cur_ign)),
+                    json!(face_tok(&f)),
+                );
+            }
+        }
+        o.hist(if refuse.1 > 0 { "writer-refusing" } else { "writer" });
         o.case(&format!("w {} {} {:?}", face_tok(&start_face), hex(&bytes), cuts), true);
         let show = |v: &Vec<(char, Face)>| v.iter().map(|(c, f)| format!("U+{:04X}:{}", *c as u32, face_tok(f))).collect::<Vec<_>>();
         let got_show = got.as_ref().map(show).unwrap_or(vec!["panic".into()]);
